@@ -225,6 +225,8 @@ class Translator:
         self.unroll_max = UNROLL_MAX
         self.name_overrides = {}
         self.items = []
+        self.prior_fns = {}    # def id -> FnInfo of functions emitted by earlier modules (qualified names)
+        self.prior_consts = {} # var def id -> qualified lean name
 
     # ------------------------------------------------------------ naming
     def fn_lean_name(self, d):
@@ -246,6 +248,8 @@ class Translator:
         fid = def_decl["id"]
         if fid in self.fns:
             return self.fns[fid]
+        if fid in self.prior_fns:
+            return self.prior_fns[fid]
         if fid in self.in_progress:
             raise Unsupported(def_decl, "recursion")
         self.in_progress.add(fid)
@@ -262,6 +266,8 @@ class Translator:
         vid = var_def["id"]
         if vid in self.consts:
             return self.consts[vid][0]
+        if vid in self.prior_consts:
+            return self.prior_consts[vid]
         mn = var_def.get("mangledName", "")
         cls = ""
         m = re.match(r"_ZN(\d+)", mn)
